@@ -58,23 +58,28 @@ Proof.
 Qed.
 
 (* the former witnesses of the clauses that were refuted before the repairs, now restored *)
-Example former_witnesses_restored :
-  (exists s', analyse ex_root ex_hook false false ([], Finish) (set_attr ("sys", "stdin") VNone ex_state) = Alive s' /\
-              get ("sys", "stdin") s' = Some VNone) /\
-  (exists s', analyse ex_root ex_hook false false ([ODel ("os", "getcwdu")], Finish) ex_state = Alive s' /\
-              get k_chdir s' = get k_chdir ex_state /\ get ("os", "getcwd") s' = get ("os", "getcwd") ex_state /\
-              get ("os", "getcwdu") s' = None) /\
-  (exists s', analyse ex_root ex_hook false false ([ODel ("imp", "load_source")], Raise) ex_state = Alive s' /\
-              get ("importlib.util", "module_from_spec") s' = get ("importlib.util", "module_from_spec") ex_state /\
-              meta s' = meta ex_state) /\
-  (exists s', analyse ex_root ex_hook false false ([OPathIns ex_root; OPathIns "/elsewhere"], Finish) ex_state = Alive s' /\
-              path s' = path ex_state) /\
-  (exists s', analyse ex_root ex_hook false false ([], Finish) ex_state = Alive s' /\
-              get k_showwarning s' = get k_showwarning ex_state /\
-              get k_saved_showwarning s' = get k_saved_showwarning ex_state).
-Proof.
-  repeat split; eexists; repeat split; vm_compute; reflexivity.
-Qed.
+Example former_witness_none_restored :
+  exists s', analyse ex_root ex_hook false false ([], Finish) (set_attr ("sys", "stdin") VNone ex_state) = Alive s' /\
+             get ("sys", "stdin") s' = Some VNone.
+Proof. eexists. split; vm_compute; reflexivity. Qed.
+Example former_witness_deleted_attr_restored :
+  exists s', analyse ex_root ex_hook false false ([ODel ("os", "getcwdu")], Finish) ex_state = Alive s' /\
+             get k_chdir s' = get k_chdir ex_state /\ get ("os", "getcwdu") s' = None.
+Proof. eexists. split; [vm_compute; reflexivity|]. split; vm_compute; reflexivity. Qed.
+Example former_witness_load_source_restored :
+  exists s', analyse ex_root ex_hook false false ([ODel ("imp", "load_source")], Raise) ex_state = Alive s' /\
+             get ("importlib.util", "module_from_spec") s' = get ("importlib.util", "module_from_spec") ex_state /\
+             meta s' = meta ex_state.
+Proof. eexists. split; [vm_compute; reflexivity|]. split; vm_compute; reflexivity. Qed.
+Example former_witness_sys_path_restored :
+  exists s', analyse ex_root ex_hook false false ([OPathIns ex_root; OPathIns "/elsewhere"], Finish) ex_state = Alive s' /\
+             path s' = path ex_state.
+Proof. eexists. split; vm_compute; reflexivity. Qed.
+Example former_witness_capture_undone :
+  exists s', analyse ex_root ex_hook false false ([], Finish) ex_state = Alive s' /\
+             get k_showwarning s' = get k_showwarning ex_state /\
+             get k_saved_showwarning s' = get k_saved_showwarning ex_state.
+Proof. eexists. split; [vm_compute; reflexivity|]. split; vm_compute; reflexivity. Qed.
 
 (* ------------------------------------------------------------------ project files *)
 
@@ -219,26 +224,6 @@ Proof. eexists. split; vm_compute; reflexivity. Qed.
 
 (* ------------------------------------------------------------------ the guards are satisfiable *)
 
-Definition no_none_b (s : st) : bool :=
-  forallb (fun q => match get (pkey q) s with Some VNone => false | _ => true end) all_patched.
-Lemma no_none_b_sound : forall s, no_none_b s = true -> no_patched_attr_is_None s.
-Proof.
-  intros s H q Hq G. unfold no_none_b in H. rewrite forallb_forall in H. specialize (H q Hq).
-  rewrite G in H. discriminate.
-Qed.
-
-Definition created_b (s sp : st) : bool :=
-  forallb (fun q => negb (target_ok q s)
-                    || match get (pkey q) s with
-                       | None => match get (pkey q) sp with None => false | Some _ => true end
-                       | Some _ => true
-                       end) all_patched.
-Lemma created_b_sound : forall s sp, created_b s sp = true -> created_attrs_still_present s sp.
-Proof.
-  intros s sp H q Hq OK G X. unfold created_b in H. rewrite forallb_forall in H. specialize (H q Hq).
-  rewrite OK, G, X in H. discriminate.
-Qed.
-
 Lemma aget_In : forall k v m, aget k m = Some v -> In (k, v) m.
 Proof.
   induction m as [|[k' v'] r IH]; cbn; intros H; [discriminate|].
@@ -268,30 +253,28 @@ Qed.
 
 Definition ex_program : program :=
   ([OWrite ("sys", "argv") (PObj 1); ODel ("os", "listdir"); OWrite ("os", "getcwd") (PCopy ("os", "_exit"));
-    OWrite ("builtins", "open") PNone; OChdir "sub"; OModIns "localmod" KProj; OModDel "numpy.distutils"], Raise).
+    OWrite ("builtins", "open") PNone; ODel ("os", "getcwdu"); OMutate ("sys", "argv") 3; OPathIns "/proj/src";
+    OChdir "sub"; OModIns "localmod" KProj; OModDel "numpy.distutils"], Raise).
 
 (* the hypotheses of setup_py_partial hold for the realistic state and a script that rewrites
-   sys.argv, deletes os.listdir, overwrites os.getcwd and builtins.open, changes directory,
-   imports a local module, drops a fake module and then raises *)
+   sys.argv, deletes os.listdir AND os.getcwdu (created by the analyser), overwrites os.getcwd and
+   builtins.open, edits sys.argv in place, inserts into sys.path, changes directory, imports a local
+   module, drops a fake module and then raises *)
 Example setup_py_partial_applies :
   let e := mk_env ex_root ex_hook false false ex_state in
   let sp := pre_exit_state e ex_program ex_state in
   fst ex_program <> [] /\
-  no_patched_attr_is_None ex_state /\ created_attrs_still_present ex_state sp /\
   host_function_unaliased k_chdir ex_state /\ host_function_unaliased k_exit ex_state /\
-  mem_n ex_hook (meta ex_state) = false /\ no_path_ins (fst ex_program) /\
+  mem_n ex_hook (meta ex_state) = false /\
   (false = true -> get k_cythonize ex_state <> None) /\
   forallb (fun m => is_plain (snd m)) (mods ex_state) = true /\
   (forall n, In n fake_names -> mmem n (mods ex_state) = false) /\
   mod_ops_ok (mods ex_state) (fst ex_program) /\ callable e sp = true.
 Proof.
   cbv zeta. split; [discriminate|].
-  split; [apply no_none_b_sound; vm_compute; reflexivity|].
-  split; [apply created_b_sound; vm_compute; reflexivity|].
   split; [apply unaliased_b_sound; vm_compute; reflexivity|].
   split; [apply unaliased_b_sound; vm_compute; reflexivity|].
   split; [vm_compute; reflexivity|].
-  split. { intros d H. cbn in H. repeat (destruct H as [H|H]; [discriminate|]). destruct H. }
   split; [discriminate|].
   split; [vm_compute; reflexivity|].
   split.
@@ -308,31 +291,17 @@ Example setup_py_partial_computed :
     listed_state (effective_keys ex_state) s' = listed_state (effective_keys ex_state) ex_state.
 Proof. intros en; destruct en; eexists; (split; [vm_compute; reflexivity|vm_compute; reflexivity]). Qed.
 
-(* a state in which every substituted attribute exists: the all-programs theorem applies *)
-Definition ex_state_full : st :=
-  set_attr ("os", "getcwdu") (VOrig 80) (set_attr ("imp", "load_source") (VOrig 81) ex_state).
-Example all_programs_applies :
-  no_patched_attr_is_None ex_state_full /\ all_patched_attrs_present ex_state_full /\
-  host_function_unaliased k_exit ex_state_full.
-Proof.
-  split; [apply no_none_b_sound; vm_compute; reflexivity|].
-  split; [|apply unaliased_b_sound; vm_compute; reflexivity].
-  assert (B : forallb (fun q => negb (target_ok q ex_state_full)
-                                || match get (pkey q) ex_state_full with Some VNone | None => false | Some _ => true end)
-                      all_patched = true) by (vm_compute; reflexivity).
-  rewrite forallb_forall in B. intros q Hq OK. specialize (B q Hq). rewrite OK in B.
-  destruct (get (pkey q) ex_state_full) as [[|n|n|n]|]; try discriminate B; eexists; split; try reflexivity; discriminate.
-Qed.
+(* the all-programs theorem needs only the os._exit guard *)
+Example all_programs_applies : host_function_unaliased k_exit ex_state.
+Proof. apply unaliased_b_sound; vm_compute; reflexivity. Qed.
 
 Example pyproject_partial_applies :
-  let p := ([OWrite ("sys", "stdout") (PObj 3); ODel ("sys", "stderr"); OChdir "PROJ/sub"], Raise) in
-  (forall q, In q pyproject_patched -> get (pkey q) ex_state <> Some VNone) /\
+  let p := ([OWrite ("sys", "stdout") (PObj 3); ODel ("sys", "stderr"); OWrite ("sys", "argv") PNone; OChdir "PROJ/sub"], Raise) in
   forallb (fun o => negb (touches k_chdir o)) (fst p) = true /\ snd p <> OsExit /\
   exists s', analyse_pyproject "PROJ" p ex_state = Alive s' /\ cwd s' = cwd ex_state /\
-             get ("sys", "stdout") s' = get ("sys", "stdout") ex_state.
+             get ("sys", "stdout") s' = get ("sys", "stdout") ex_state /\
+             get ("sys", "stderr") s' = get ("sys", "stderr") ex_state.
 Proof.
-  cbv zeta. split.
-  { intros q Hq. vm_compute in Hq. repeat (destruct Hq as [<-|Hq]; [vm_compute; discriminate|]). destruct Hq. }
-  split; [reflexivity|]. split; [discriminate|].
-  eexists. split; [vm_compute; reflexivity|]. split; vm_compute; reflexivity.
+  cbv zeta. split; [reflexivity|]. split; [discriminate|].
+  eexists. split; [vm_compute; reflexivity|]. split; [vm_compute; reflexivity|]. split; vm_compute; reflexivity.
 Qed.
